@@ -24,6 +24,7 @@ def install(ext, schema):
     m[('EioServer', 'send_packet')] = eio_server_send_packet
     m[('EioServer', 'start_background_task')] = eio_start_background_task
     m[('EioClient', 'start_background_task')] = eio_start_background_task
+    m[('EioServer', 'get_session')] = eio_get_session
     m[('Task', 'add_done_callback')] = lambda eng, ctx, args, kwargs, me: iter([(ctx, S(NONE))])
     m[('Task', 'join')] = lambda eng, ctx, args, kwargs, me: iter([(ctx, S(NONE))])
 
@@ -75,3 +76,23 @@ def eio_start_background_task(eng, ctx, args, kwargs):
     rest = PySeq(eng._drop_front(args, 1), 'tuple')
     for c, r in eng.call(ctx, f, rest, dict(kwargs)):
         yield c, c.alloc('rec', {}, cls='Task')
+
+
+def eio_get_session(eng, ctx, args, kwargs):
+    """engine.io get_session(sid): the session dict of that live connection (one dict per connection); KeyError for an
+    unknown connection.  Which connections are live is not modelled: the dict is looked up/created per transport id."""
+    from pyvc.vals import Ref
+    eng.ext.note('engine.io get_session(eio_sid) returns the one session dict of that connection (a new empty one for a new connection) and raises KeyError for an unknown one')
+    (e,) = args.items()
+    ev = eng.to_v(ctx, e)
+    for c, none in eng.branch(ctx, ev == NONE):
+        if none:
+            yield c, Raised(Exc('KeyError'))
+            continue
+        sv = c.st.get('eio', 'sessions')
+        from pyvc.model import SV, MapT, Leaf
+        for c2, pres in eng.branch(c, sv.present(ev)):
+            if not pres:
+                sv2 = c2.st.get('eio', 'sessions')
+                c2.st = c2.st.set('eio', 'sessions', sv2.with_child(('k', ev), SV.empty(MapT(Leaf('V')))))
+            yield c2, Ref('eio', 'sessions', (('k', ev),))
